@@ -28,14 +28,14 @@ ATOL_ARR = 1e-9   # arrays: |a-b| <= ATOL_ARR * max|expected| (the same SciPy ca
 # ("dec", q, kw) | ("det", kw) | ("filt", Wn, order, btype) | ("rb",) | ("add",) = add_algorithms(a fresh instance)
 # | ("readd",) = add_algorithms(the instance added last, same object and name; a fresh one when none was added yet)
 ALPHA = {
-    "A": [("dec", 2, {}), ("dec", 3, {"ftype": "fir"}), ("det", {"type": "linear"}), ("det", {"type": "constant"}),
+    "A": [("dec", 2, {}), ("dec", 3, {"ftype": "fir"}), ("det", {"type": "linear"}), ("det", {"type": "c"}),
           ("filt", 1.5, 4, "lowpass"), ("filt", [0.5, 2.0], 2, "bandpass"), ("rb",), ("add",),
           ("dec", 2, {"n": 4, "zero_phase": False}), ("readd",)],
-    "B": [("dec", 5, {}), ("dec", 4, {"ftype": "fir", "n": 30}), ("det", {}), ("det", {"type": "linear", "bp": [40, 90]}),
-          ("filt", 2.0, 3, "highpass"), ("filt", [1.0, 2.5], 2, "bandstop"), ("rb",), ("add",),
+    "B": [("dec", 5, {}), ("dec", 4, {"ftype": "fir", "n": 30}), ("det", {}), ("det", {"type": "l", "bp": [40, 90]}),
+          ("filt", 2.0, 3, "high"), ("filt", [1.0, 2.5], 2, "stop"), ("rb",), ("add",),
           ("dec", 2, {"ftype": "iir", "n": 6, "zero_phase": True}), ("readd",)],
-    "C": [("dec", 3, {"zero_phase": False}), ("dec", 2, {"ftype": "fir", "zero_phase": False}), ("det", {"type": "constant", "bp": 0}),
-          ("det", {"bp": [100]}), ("filt", 1.0, 2, "lowpass"), ("filt", [0.25, 1.75], 3, "bandpass"), ("rb",), ("add",),
+    "C": [("dec", 3, {"ftype": "dlti-iir-cheby1-4", "zero_phase": False}), ("dec", 2, {"ftype": "fir", "zero_phase": False}), ("det", {"type": "constant", "bp": 0}),
+          ("det", {"bp": [100]}), ("filt", 1.0, 2, "low"), ("filt", [0.25, 1.75], 3, "band"), ("rb",), ("add",),
           ("dec", 4, {"n": 5}), ("readd",)],
 }
 # calls SciPy itself refuses (unknown ftype / type / btype value, Wn above Nyquist; on the short records of the "R"
@@ -49,7 +49,59 @@ METHOD = {"dec": "decimate_data", "det": "detrend_data", "filt": "filter_data", 
 
 
 def undocumented(op):
-    return op[0] in ("dec", "det") and any(k not in (("n", "ftype", "zero_phase") if op[0] == "dec" else ("type", "bp")) for k in op[-1])
+    return op[0] in ("dec", "det") and any(k not in (("n", "ftype", "zero_phase") if op[0] == "dec" else ("type", "bp", "overwrite_data")) for k in op[-1])
+
+
+# ------------------------------------------------------------------------------------------------ keyword VALUE space
+# A keyword value that is an object (scipy.signal.decimate documents ftype : {'iir','fir'} or a dlti instance) is NAMED by a
+# string in the nominal call - for the model it is just another symbolic parameter value - and built when a call is made.
+def make_dlti(tag, q):
+    if tag == "dlti-iir-cheby1-4":
+        return signal.dlti(*signal.cheby1(4, 0.05, 0.8 / q))
+    if tag == "dlti-fir-21":
+        return signal.dlti(signal.firwin(21, 1.0 / q, window="hamming"), 1.0)
+    raise KeyError(tag)
+
+
+def real_kw(kw, q=None):
+    out = dict(kw)
+    if isinstance(out.get("ftype"), str) and out["ftype"].startswith("dlti-"):
+        out["ftype"] = make_dlti(out["ftype"], q)
+    return out
+
+
+def _accepted(f):
+    try:
+        f()
+        return True
+    except Exception:
+        return False
+
+
+def value_space():
+    """One call per documented value (aliases included) of every keyword of the three SciPy routines, read from the installed
+    SciPy where it exposes the domain (butter's btype table) and probed on it otherwise (detrend's type spellings)."""
+    ops = []
+    types = [t for t in ("linear", "l", "constant", "c") if _accepted(lambda: signal.detrend(np.arange(8.0), type=t))]
+    ops += [("det", {"type": t}) for t in types] + [("det", {"type": t, "bp": [100, 300]}) for t in types]
+    ops += [("det", {"type": "l", "bp": 300}), ("det", {"type": "c", "bp": 0}), ("det", {"bp": 150}),
+            ("det", {"type": "c", "overwrite_data": False}), ("det", {"overwrite_data": False})]
+    qs = itertools.cycle([2, 3, 4, 5])
+    for ft in ("iir", "fir", "dlti-iir-cheby1-4", "dlti-fir-21"):
+        for zp in (True, False):
+            ops.append(("dec", next(qs), {"ftype": ft, "zero_phase": zp}))
+    ops += [("dec", 3, {"ftype": "iir", "n": 3}), ("dec", 2, {"ftype": "fir", "n": 20}), ("dec", 4, {"n": None, "ftype": "iir"}), ("dec", 5, {"n": 2})]
+    try:
+        from scipy.signal import _filter_design as fd
+        table = dict(fd.band_dict)
+    except Exception:
+        table = {k: v for v, ks in (("lowpass", ("lowpass", "low", "l", "lp")), ("highpass", ("highpass", "high", "h", "hp")),
+                                    ("bandpass", ("bandpass", "band", "pass", "bp")), ("bandstop", ("bandstop", "stop", "bands", "bs"))) for k in ks}
+    orders = itertools.cycle([1, 2, 3, 4, 5, 6])
+    for alias in sorted(table):
+        ops.append(("filt", [1.0, 4.0] if table[alias] in ("bandpass", "bandstop") else 2.0, next(orders), alias))
+    ops += [("filt", 2.0, o, "lowpass") for o in (1, 5, 7, 8)]
+    return ops
 
 
 def op_key(op):
@@ -199,21 +251,30 @@ class Letters:
 
 
 # ------------------------------------------------------------------------------------------------ configurations
-def make_data(seed, shapes):
-    """The user's arrays: noise + offset + linear trend + two sinusoids (so that every operation changes them)."""
+DEFAULT_SPEC = ["float64", "C", False]
+DTYPES = ["float64", "float32", "int16", "int32", "int64", "uint16"]
+
+
+def make_data(seed, shapes, dspec=None):
+    """The user's arrays: noise + offset + linear trend + two sinusoids (so that every operation changes them).
+    dspec[i] = [dtype, memory order, read-only]: other than the default, the record is INTEGER-VALUED A/D counts (x100,
+    offset 20000, so that detrending produces non-integers and unsigned types hold it) stored in that dtype / order."""
     rng = np.random.default_rng(seed)
     out = []
-    for n, c in shapes:
+    for i, (n, c) in enumerate(shapes):
         t = np.arange(n)[:, None] / float(n)
         x = rng.standard_normal((n, c))
         x += rng.uniform(-3, 3, size=(1, c)) + rng.uniform(-4, 4, size=(1, c)) * t
         x += np.sin(2 * np.pi * rng.uniform(2, 6, size=(1, c)) * t) + 0.5 * np.cos(2 * np.pi * rng.uniform(20, 60, size=(1, c)) * t)
-        out.append(np.ascontiguousarray(x))
+        spec = dspec[i] if dspec else DEFAULT_SPEC
+        if list(spec) != DEFAULT_SPEC:
+            x = np.array(np.round(x * 100.0 + 20000.0), dtype=spec[0], order=spec[1])
+        out.append(np.ascontiguousarray(x) if spec[1] == "C" else np.asfortranarray(x))
     return out
 
 
 class Cfg:
-    def __init__(self, single, fs0, shapes, refs, data_seed, alpha, fs_kind="float"):
+    def __init__(self, single, fs0, shapes, refs, data_seed, alpha, fs_kind="float", dspec=None):
         self.single = bool(single)
         self.fs0 = float(fs0)
         self.fs_kind = fs_kind       # how fs is handed to the constructor: "float", "int" (Python int) or "int64" (numpy)
@@ -222,7 +283,8 @@ class Cfg:
         self.refs = [[int(v) for v in r] for r in refs]
         self.data_seed = int(data_seed)
         self.alpha = alpha
-        self.pristine = make_data(self.data_seed, self.shapes)
+        self.dspec = [list(d) for d in dspec] if dspec else [list(DEFAULT_SPEC) for _ in self.shapes]
+        self.pristine = make_data(self.data_seed, self.shapes, self.dspec)
         for a in self.pristine:
             a.setflags(write=False)
         self.cls = "SingleSetup" if self.single else "MultiSetup_PreGER"
@@ -230,7 +292,10 @@ class Cfg:
         self.ref_memo = {}
 
     def desc(self):
-        return dict(cls=self.cls, fs0=self.fs0, fs_kind=self.fs_kind, shapes=[list(s) for s in self.shapes], refs=self.refs, data_seed=self.data_seed)
+        d = dict(cls=self.cls, fs0=self.fs0, fs_kind=self.fs_kind, shapes=[list(s) for s in self.shapes], refs=self.refs, data_seed=self.data_seed)
+        if any(x != DEFAULT_SPEC for x in self.dspec):
+            d["dspec"] = self.dspec
+        return d
 
     def fs_arg(self):
         return {"float": float, "int": int, "int64": np.int64}[self.fs_kind](self.fs0)
@@ -357,7 +422,7 @@ def eval_term(cfg, t):
         else:
             try:
                 if t[0] == "D":
-                    r = signal.decimate(x, t[1], axis=0, **kw_dict(t[2]))
+                    r = signal.decimate(x, t[1], axis=0, **real_kw(kw_dict(t[2]), t[1]))
                 elif t[0] == "T":
                     r = signal.detrend(x, axis=0, **kw_dict(t[1]))
                 else:
@@ -388,7 +453,7 @@ def reference(cfg, since):
         else:
             try:
                 if op[0] == "dec":
-                    r = ([signal.decimate(a, op[1], axis=0, **op[2]) for a in arrs], fsx / op[1])
+                    r = ([signal.decimate(a, op[1], axis=0, **real_kw(op[2], op[1])) for a in arrs], fsx / op[1])
                 elif op[0] == "det":
                     r = ([signal.detrend(a, axis=0, **op[1]) for a in arrs], fsx)
                 else:
@@ -407,7 +472,14 @@ def close(a, b):
         return False
     if a.size == 0 or np.array_equal(a, b):
         return True
+    if b.dtype == np.float32:       # SciPy keeps single precision for decimate / detrend of a float32 record
+        return bool(np.all(np.abs(a.astype(float) - b.astype(float)) <= 1e-5 * max(1e-300, float(np.abs(b).max()))))
     return bool(np.all(np.abs(a - b) <= ATOL_ARR * max(1e-300, float(np.abs(b).max()))))
+
+
+def same(u, p):
+    """bit-equal, same dtype, same shape"""
+    return isinstance(u, np.ndarray) and u.dtype == p.dtype and u.shape == p.shape and np.array_equal(u, p)
 
 
 def relclose(x, fr):
@@ -436,7 +508,9 @@ class Impl:
 
     def __init__(self, cfg):
         self.cfg = cfg
-        self.user = [np.array(a, copy=True) for a in cfg.pristine]   # the arrays handed to the constructor
+        self.user = [np.array(a, copy=True, order="K") for a in cfg.pristine]   # the arrays handed to the constructor
+        for a, spec in zip(self.user, cfg.dspec):
+            a.setflags(write=not spec[2])
         self.user_refs = [list(r) for r in cfg.refs]
         self.user_list = list(self.user)
         self.algs = []   # [algorithm, since-at-(re)bind-time, site], one entry per instance
@@ -451,7 +525,7 @@ class Impl:
         form = form or forms_of(op)[0]
         params = params if params is not None else Params()
         if op[0] == "dec":
-            o.decimate_data(params.get(op, form), **op[2])
+            o.decimate_data(params.get(op, form), **real_kw(op[2], op[1]))
         elif op[0] == "det":
             o.detrend_data(**(dict(op[1], bp=params.get(op, form)) if form is not None else op[1]))
         elif op[0] == "filt":
@@ -533,6 +607,8 @@ def check_state(ctx, rec, cfg, im, ops, i, since, q_last, mstates, case, reporte
             got = im.datasets()
             if len(got) != len(arrs) or not all(close(g, a) for g, a in zip(got, arrs)):
                 fail("data", "after %s the current %s differ from the same SciPy calls applied in sequence to the initial data" % (site, "data" if cfg.single else "datasets"))
+            elif any(np.asarray(g).dtype != a.dtype for g, a in zip(got, arrs)):
+                fail("dtype", "after %s the current data have dtype %s, the same SciPy calls on the initial data give %s" % (site, [str(np.asarray(g).dtype) for g in got], [str(a.dtype) for a in arrs]))
             elif not cfg.single and not handed_ok(cfg, o.data, arrs):
                 fail("split", "after %s .data is not the reference/roving split of the processed datasets" % site)
         if not relclose(o.fs, fsx):
@@ -555,13 +631,13 @@ def check_state(ctx, rec, cfg, im, ops, i, since, q_last, mstates, case, reporte
     except Exception as e:
         fail("attributes", "%s: attributes unreadable (%s: %s)" % (site, type(e).__name__, e))
     # nothing the user passed in, and no stored initial copy, is ever modified
-    if not all(np.array_equal(u, p) for u, p in zip(im.user, cfg.pristine)) or len(im.user_list) != len(cfg.pristine) \
+    if not all(same(u, p) and u.flags.f_contiguous == p.flags.f_contiguous for u, p in zip(im.user, cfg.pristine)) or len(im.user_list) != len(cfg.pristine) \
             or any(a is not b for a, b in zip(im.user_list, im.user)) or im.user_refs != cfg.refs:
         fail("user-array-modified", "%s modified the arrays / lists the user passed in" % site)
     ini = getattr(o, "_initial_data", None) if cfg.single else getattr(o, "_initial_datasets", None)
     if ini is not None:
         ini = [ini] if cfg.single else list(ini)
-        if len(ini) != len(cfg.pristine) or not all(np.array_equal(u, p) for u, p in zip(ini, cfg.pristine)):
+        if len(ini) != len(cfg.pristine) or not all(same(u, p) for u, p in zip(ini, cfg.pristine)):
             fail("initial-copy-modified", "%s modified the stored initial copy" % site)
         if getattr(o, "_initial_fs", cfg.fs0) != cfg.fs0 or (not cfg.single and getattr(o, "_initial_ref_ind", cfg.refs) != cfg.refs):
             fail("initial-copy-modified", "%s modified the stored initial fs / reference layout" % site)
@@ -760,7 +836,8 @@ def random_cfg(rng, seed, alpha):
         refs.append(r)
     fs0, kind = rng.choice([(1024.0, "float"), (1000.0, "float"), (1250.0, "float"), (2048.0, "float"), (800.5, "float"), (100.0, "float"),
                             (100, "int"), (128, "int"), (120, "int64"), (100, "int64")])
-    return Cfg(single, fs0, shapes, [] if single else refs, seed, alpha, kind)
+    dspec = [list(DEFAULT_SPEC) if rng.random() < 0.5 else [rng.choice(DTYPES), rng.choice("CF"), rng.random() < 0.5] for _ in shapes]
+    return Cfg(single, fs0, shapes, [] if single else refs, seed, alpha, kind, dspec)
 
 
 def run(ctx):
@@ -772,12 +849,15 @@ def run(ctx):
                          "non-trivial when it contains at least one data-changing call; distinct by hash of (configuration, history, argument forms); "
                          "every call's variable argument (Wn, q, bp) is handed over in a form drawn per call (float/int/numpy scalar/0-d array/tuple/list/int ndarray/float64 ndarray), "
                          "the same object re-used when the call recurs, plus a block of every filter call x every form x {single call, repeated call, after decimation, across rollback} "
-                         "on SingleSetup and PreGER with 2 and 3 datasets, also on two successive setups sharing the argument objects; no argument object may be modified")
+                         "on SingleSetup and PreGER with 2 and 3 datasets, also on two successive setups sharing the argument objects; no argument object may be modified; "
+                         "every documented keyword VALUE (detrend type linear/l/constant/c, bp int/list/array, overwrite_data=False; decimate ftype iir/fir/IIR dlti/FIR dlti, n, zero_phase; every btype spelling of the installed butter, orders 1-8) "
+                         "alone and after a decimation on the same three layouts; records held as float64/float32/int16/int32/int64/uint16, C or Fortran order, writable or read-only (per dataset)")
     ctx.assumptions += [
         "SciPy is not modelled: data are symbolic terms; assumed shape contract rows(decimate(x,q)) = ceil(rows(x)/q), detrend/sosfiltfilt keep the shape (checked on every evaluated term)",
         "the harness evaluates model terms and the oracle's reference with scipy.signal.decimate/detrend/butter/sosfiltfilt of the installed SciPy (axis=0), arrays compared at 1e-9*scale, attributes at 1e-12",
         "which documented calls SciPy refuses (ScipyRaises in the model) is decided by the harness's own SciPy evaluation of the same call on the same data",
-        "keywords axis / overwrite_data (accepted by the code, outside the property's quantifier) are not exercised",
+        "keyword axis and overwrite_data=True are not exercised (overwrite_data=True makes scipy.signal.detrend work in place on the array the setup holds, which initially IS the user's array)",
+        "a dlti instance given as ftype is named by a string in the nominal call / model term and built (IIR: cheby1(4, 0.05, 0.8/q); FIR: firwin(21, 1/q)) for each SciPy or implementation call",
     ]
     # ---- corpus (failing histories of the repaired PreGER defects) and replay
     jobs = []
@@ -786,7 +866,7 @@ def run(ctx):
     for fn in files:
         c = json.load(open(fn))
         c = c.get("case", c)
-        cfg = Cfg(c["cls"] == "SingleSetup", c["fs0"], c["shapes"], c["refs"], c["data_seed"], None, c.get("fs_kind", "float"))
+        cfg = Cfg(c["cls"] == "SingleSetup", c["fs0"], c["shapes"], c["refs"], c["data_seed"], None, c.get("fs_kind", "float"), c.get("dspec"))
         ops = [tuple(o) for o in c["ops"]]
         given[len(jobs)] = (c.get("forms"), int(c.get("repeat_setups", 1)))
         jobs.append((cfg, ops, True))
@@ -812,19 +892,20 @@ def run(ctx):
                 for w in itertools.product(ALPHA[cfg.alpha], repeat=n):
                     jobs.append((cfg, list(w), False))
         # random layouts: the freshly constructed object and every word of length <= 2
-        for k in range(ctx.n(8, 40)):
+        for k in range(ctx.n(6, 40)):
             cfg = random_cfg(rng, 1000 + k, rng.choice("ABC"))
             for n in (0, 1, 2):
                 for w in itertools.product(ALPHA[cfg.alpha], repeat=n):
                     jobs.append((cfg, list(w), False))
         # sampled words of length 5 over all letters, random layouts, every call checked
-        allops = [o for a in "ABC" for o in ALPHA[a]] + REFUSED
+        values = value_space()
+        allops = [o for a in "ABC" for o in ALPHA[a]] + REFUSED + values
         for k in range(ctx.n(150, 1500)):
             if k % 10 == 0:
                 cfg = random_cfg(rng, 5000 + k, None)
             jobs.append((cfg, [rng.choice(allops) for _ in range(5)], True))
         # malformed stream: undocumented keyword somewhere in the history; invalid reference layouts
-        nbad = ctx.n(240, 1500)
+        nbad = ctx.n(150, 1500)
         for k in range(nbad):
             if k % 6 == 0:
                 cfg = random_cfg(rng, 9000 + k, None)
@@ -850,6 +931,23 @@ def run(ctx):
                 for fm in forms_of(op):
                     given[len(jobs)] = ([fm, fm, None], 2)
                     jobs.append((cfg, [op, op, ("add",)], True))
+        # keyword VALUE space: every documented value (aliases included) of every keyword, alone and after a decimation, on
+        # SingleSetup and PreGER with 2 and 3 datasets
+        for cfg in fcfgs:
+            for op in values:
+                jobs.append((cfg, [op], True))
+                jobs.append((cfg, [("dec", 2, {"ftype": "fir"}), op, ("add",)], True))
+        # record dtype / memory order / read-only: every word of length <= 2 over six calls, integer-valued A/D counts
+        d_alpha = [("dec", 2, {}), ("det", {}), ("det", {"type": "c"}), ("filt", 2.0, 3, "lowpass"), ("rb",), ("add",)]
+        dcfgs = [Cfg(True, 100, [(800, 3)], [], 120 + k, None, "int", [[dt_, "CF"[k % 2], bool(k % 2)]]) for k, dt_ in enumerate(DTYPES)]
+        dcfgs += [Cfg(True, 100.0, [(800, 3)], [], 127, None, "float", [["int16", "C", True]]),
+                  Cfg(False, 100, [(800, 3), (840, 4)], [[2, 0], [1, 3]], 128, None, "int", [["int16", "C", False], ["float32", "F", True]]),
+                  Cfg(False, 120, [(810, 5), (768, 2), (900, 4)], [[4, 1, 2], [0], [3]], 129, None, "int64", [["uint16", "F", False], ["int64", "C", True], ["float64", "F", True]]),
+                  Cfg(False, 100.0, [(800, 2), (800, 3)], [[1], [0, 2]], 130, None, "float", [["int32", "C", True], ["float32", "C", False]])]
+        for cfg in dcfgs:
+            for n in (0, 1, 2):
+                for w in itertools.product(d_alpha, repeat=n):
+                    jobs.append((cfg, list(w), False))
     # the form of every other call's argument is drawn at random; within a history the same call re-uses the same object
     jobs = [(cfg, ops, flag) + (given[j] if j in given and given[j][0] else ([pick_form(ctx.rng, o) for o in ops], given.get(j, (None, 1))[1]))
             for j, (cfg, ops, flag) in enumerate(jobs)]
@@ -872,6 +970,16 @@ def run(ctx):
         ctx.hist("length", len(ops))
         ctx.hist("datasets", len(cfg.shapes))
         ctx.hist("fs given as", cfg.fs_kind)
+        for sp in cfg.dspec:
+            ctx.hist("record dtype/order/read-only", "%s/%s/%s" % (sp[0], sp[1], "ro" if sp[2] else "rw"))
+        for o_ in ops:
+            if o_[0] == "filt":
+                ctx.hist("btype", o_[3])
+                ctx.hist("order", o_[2])
+            elif o_[0] in ("dec", "det"):
+                for k_, v_ in o_[-1].items():
+                    if k_ != "bp":
+                        ctx.hist("keyword value", "%s.%s=%r" % (METHOD[o_[0]], k_, v_))
         for o_ in ops:
             ctx.hist("call", METHOD[o_[0]] + ("(q=%d)" % o_[1] if o_[0] == "dec" else "(same instance)" if o_[0] == "readd" else ""))
         if j < ncorpus or (j % 997 == 0):
